@@ -24,14 +24,14 @@ ASTDEPS = os.path.join(BUILD, 'astdeps-target', 'debug', 'deps')
 
 VERIFICATION_MSGS = (
     'postcondition not satisfied', 'precondition not satisfied', 'invariant not satisfied',
-    'assertion failed', 'possible arithmetic underflow/overflow', 'possible division by zero',
-    'decreases not satisfied', 'could not prove termination', 'possible bit shift underflow/overflow',
-    'recommendation not met', 'loop invariant not satisfied', 'unreachable()', 'assert_by',
-    'possible arithmetic', 'index out of bounds', 'failed to prove', 'could not show',
-    'constructed value may fail to meet its declared type invariant', 'opens_invariants',
-    'cannot show invariant', 'at the end of the loop body', 'before the loop', 'may fail',
-    'split assertion failure', 'split precondition failure', 'split postcondition failure',
-    'failed this', 'not satisfied', 'cannot prove', 'unable to prove', 'might not', 'might fail', 'fails to satisfy',
+    'loop invariant not satisfied', 'assertion failed', 'possible arithmetic underflow/overflow',
+    'possible division by zero', 'decreases not satisfied', 'could not prove termination',
+    'possible bit shift underflow/overflow', 'recommendation not met', 'unreachable',
+    'unable to prove post-condition of closure', 'unable to prove assertion',
+    'fails to satisfy `callee.requires(args)`', 'failed precondition', 'split assertion failure',
+    'split precondition failure', 'split postcondition failure', 'possible truncation',
+    'constructed value may fail to meet its declared type invariant', 'cannot show invariant',
+    'possible index out of bounds',
 )
 UNDECIDED_MSGS = ('rlimit', 'resource limit', 'timed out', 'Verus Internal Error', 'not supported',
                   'does not yet support', 'panicked')
@@ -43,7 +43,11 @@ def astdeps_args():
     rl = [f for f in os.listdir(ASTDEPS) if re.match(r'librustpython_parser-[0-9a-f]+\.rlib$', f)]
     if not rl:
         return None
-    return ['--extern', f'rustpython_parser={os.path.join(ASTDEPS, rl[0])}', '-L', f'dependency={ASTDEPS}']
+    out = ['--extern', f'rustpython_parser={os.path.join(ASTDEPS, rl[0])}', '-L', f'dependency={ASTDEPS}']
+    core = [f for f in os.listdir(ASTDEPS) if re.match(r'librustpython_parser_core-[0-9a-f]+\.rlib$', f)]
+    if core:
+        out += ['--extern', f'rustpython_parser_core={os.path.join(ASTDEPS, core[0])}']
+    return out
 
 
 def fn_items(path):
@@ -215,6 +219,8 @@ def run_unit(unit, tmpl, seed=0, rlimit=None, needs_ast=False, threads=4, extra_
         spans = d.get('spans', [])
         prim = next((s_ for s_ in spans if s_.get('is_primary')), spans[0] if spans else None)
         kind = classify(msg)
+        if d.get('code'):
+            kind = 'other'   # rustc diagnostics (type / trait / borrow errors) are never verification failures
         if prim is None:
             res['undecided'].append(f'{msg}')
             continue
